@@ -38,7 +38,8 @@ func (c18) Info(tier string) fw.Info {
 		Rule: "exhaustive cross product: type instances {int,float,bool,str,range,[int],[float],[str],[bool],[[int]],[{a:int}],[range],{?},{a:int,b:str},{r:range},?int,?str,?[int],null,fn} " +
 			"(each with empty/one/many receivers) x every member of the real ast.<Type>.Fields() x every argument tuple of the boundary pools (strings: empty/absent/present/self; counts -1,0,1,3; " +
 			"indices -len-1..len+1; elements present/absent), as Go-API key-set checks in both value libraries and as generated programs run on the VM and on the interpreter; plus indexing " +
-			"recv[i] / recv[\"k\"] / recv[k] / recv->k with the same index sets. thorough adds 7-element and seed-chosen receivers. " +
+			"recv[i] / recv[\"k\"] / recv[k] / recv->k with the same index sets. Receivers are built as literals and, where expressible, also by parse_json and by a cast to {?}; " +
+			"null-returning members run as a statement and bound to a variable; ?any results are also observed uncast through .to_string(). thorough adds 7-element and seed-chosen receivers and up to 200 argument tuples. " +
 			"non-trivial = the analyzer accepted the program and the member/index operation was executed by the backend (its result was probed, or it raised an interrupt, or it crashed); " +
 			"for api cases: the analyzer lists the member and Fields() of the runtime values was evaluated. distinct = distinct (part, backend, receiver, member, arguments, form)",
 		Assumptions: []string{
@@ -63,6 +64,22 @@ func paramsOf(ft ast.FunctionType) ([]ast.FunctionTypeParam, bool) {
 		return nil, false
 	}
 	return np.Params, true
+}
+
+// rcv is a receiver together with the way it is constructed.
+type rcv struct {
+	V      rv
+	Origin string
+}
+
+func expand(vars []rv) []rcv {
+	var out []rcv
+	for _, v := range vars {
+		for _, o := range originsOf(v) {
+			out = append(out, rcv{v, o})
+		}
+	}
+	return out
 }
 
 func (c18) Cases(tier string, seed uint64) []fw.Case {
@@ -100,11 +117,18 @@ func (c18) Cases(tier string, seed uint64) []fw.Case {
 			}
 			// (b) programs
 			ft, isFn := mt.(ast.FunctionType)
-			for _, recv := range in.Vars {
+			base := map[string]bool{} // the receivers of the quick matrix
+			if q, ok := instByName(in.Name); ok {
+				for _, v := range q.Vars {
+					base[show(v)] = true
+				}
+			}
+			for _, rc := range expand(in.Vars) {
+				recv, origin := rc.V, rc.Origin
 				if !isFn {
-					src, pr := callProgram(in, recv, m, mt, nil, "let")
+					src, pr := callProgram(in, recv, origin, m, mt, nil, "let")
 					for _, b := range backends {
-						add(payload{Part: "field", Backend: b, Inst: in.Name, Recv: recv, Member: m, Form: "let", Print: pr, Src: src})
+						add(payload{Part: "field", Backend: b, Inst: in.Name, Recv: recv, Origin: origin, Member: m, Form: "let", Print: pr, Src: src})
 					}
 					continue
 				}
@@ -113,29 +137,38 @@ func (c18) Cases(tier string, seed uint64) []fw.Case {
 					continue
 				}
 				forms := []string{"let"}
+				if isOptAny(ft.ReturnType) {
+					forms = []string{"let", "chain"}
+				}
 				if ft.ReturnType.Kind() == ast.NullTypeKind {
 					// a null result cannot be passed to probe(): run the call as a statement, and
 					// bound to a variable that is then wrapped in a list
 					forms = []string{"stmt", "bound"}
+					if !base[show(recv)] {
+						// the bound form observes the null value itself, not the member: the
+						// receivers of the quick matrix are enough for it
+						forms = []string{"stmt"}
+					}
 				}
 				for _, args := range argTuples(params, recv, thorough) {
 					for _, form := range forms {
-						src, pr := callProgram(in, recv, m, mt, args, form)
+						src, pr := callProgram(in, recv, origin, m, mt, args, form)
 						for _, b := range backends {
-							add(payload{Part: "call", Backend: b, Inst: in.Name, Recv: recv, Member: m, Args: args, Form: form, Print: pr, Src: src})
+							add(payload{Part: "call", Backend: b, Inst: in.Name, Recv: recv, Origin: origin, Member: m, Args: args, Form: form, Print: pr, Src: src})
 						}
 					}
 				}
 			}
 		}
 		// (c) indexing
-		for _, recv := range in.Vars {
+		for _, rc := range expand(in.Vars) {
+			recv, origin := rc.V, rc.Origin
 			switch recv.K {
 			case "list", "str":
 				for _, idx := range indexPool(recv) {
-					src, pr := indexProgram(in, recv, "idx-int", idx)
+					src, pr := indexProgram(in, recv, origin, "idx-int", idx, "let")
 					for _, b := range backends {
-						add(payload{Part: "idx-int", Backend: b, Inst: in.Name, Recv: recv, Args: []rv{idx}, Form: "let", Print: pr, Src: src})
+						add(payload{Part: "idx-int", Backend: b, Inst: in.Name, Recv: recv, Origin: origin, Args: []rv{idx}, Form: "let", Print: pr, Src: src})
 					}
 				}
 			case "obj", "anyobj":
@@ -154,9 +187,15 @@ func (c18) Cases(tier string, seed uint64) []fw.Case {
 						parts = append(parts, "arrow")
 					}
 					for _, part := range parts {
-						src, pr := indexProgram(in, recv, part, vStr(k))
-						for _, b := range backends {
-							add(payload{Part: part, Backend: b, Inst: in.Name, Recv: recv, Args: []rv{vStr(k)}, Form: "let", Print: pr, Src: src})
+						forms := []string{"let"}
+						if part == "arrow" {
+							forms = append(forms, "chain")
+						}
+						for _, form := range forms {
+							src, pr := indexProgram(in, recv, origin, part, vStr(k), form)
+							for _, b := range backends {
+								add(payload{Part: part, Backend: b, Inst: in.Name, Recv: recv, Origin: origin, Args: []rv{vStr(k)}, Form: form, Print: pr, Src: src})
+							}
 						}
 					}
 				}
@@ -358,6 +397,10 @@ func runProgram(p *payload, in inst) (res fw.Result) {
 	res.Nontrivial = true
 	res.Cover = append(res.Cover, pairKey(p), "outcome:"+ob.outcome.Class, "expect:"+e.Mode)
 	fails = judge(p, in, e, adv, ob)
+	if len(fails) > 0 && fails[0].class == "setup-failed" && p.Origin != "" {
+		// parse_json / cast did not deliver the receiver: not a statement about the member
+		return fw.Result{Verdict: fw.Inconclusive, Why: describe(p) + ": " + fails[0].why, Cover: res.Cover}
+	}
 	if h := fw.HashOf(p.Src, p.Backend); h[0] == '0' && h[1] < '8' {
 		res.Sample = map[string]any{"backend": p.Backend, "program": p.Src, "outcome": ob.outcome.String(), "probes": showAll(ob.probes), "expect": e.Mode}
 	}
@@ -376,6 +419,11 @@ func showAll(vs []rv) []string {
 func judge(p *payload, in inst, e expect, adv ast.Type, ob observed) []failure {
 	var fails []failure
 	oc := ob.outcome
+	// the first probe is the marker written after the receiver was constructed
+	constructed := len(ob.probes) > 0 && ob.probes[0].K == "bool"
+	if constructed {
+		ob.probes = ob.probes[1:]
+	}
 	switch oc.Class {
 	case "go-panic":
 		return []failure{{"go-panic:" + normCrash(oc.Message), "the interpreter panicked in Go: " + util.Clip(oc.Message, 300)}}
@@ -385,6 +433,10 @@ func judge(p *payload, in inst, e expect, adv ast.Type, ob observed) []failure {
 		return []failure{{"compile-error", "the analyzer accepted the program but the compiler failed: " + util.Clip(oc.Message, 200)}}
 	case "unknown":
 		return []failure{{"unknown-interrupt", "unclassifiable interrupt: " + util.Clip(oc.Message, 200)}}
+	}
+	if !constructed {
+		// the run ended before the member / index operation was reached
+		return []failure{{"setup-failed", "the receiver could not be constructed: " + util.Clip(oc.String(), 200)}}
 	}
 	if oc.Class != "ok" {
 		// an interrupt (fatal error, uncaught throw, ...)
@@ -418,10 +470,16 @@ func judge(p *payload, in inst, e expect, adv ast.Type, ob observed) []failure {
 	}
 	// typed result
 	ct := checkType(adv, e)
+	want, haveWant := e.Val, true
+	switch p.Form {
+	case "bound":
+		ct, want = tList(tNull()), vList(e.Val)
+	case "chain":
+		ct = tStr()
+		d, ok := disp(e.Val)
+		want, haveWant = vStr(d), ok
+	}
 	if r != nil {
-		if p.Form == "bound" {
-			ct = tList(tNull())
-		}
 		if ok, why := hasType(*r, ct); !ok {
 			fails = append(fails, failure{"ill-typed-result", fmt.Sprintf("result %s does not conform to the advertised type %s: %s", show(*r), typeName(ct), why)})
 		}
@@ -433,14 +491,16 @@ func judge(p *payload, in inst, e expect, adv ast.Type, ob observed) []failure {
 		return fails
 	}
 	// reference model
-	if r != nil {
-		want := e.Val
-		if p.Form == "bound" {
-			want = vList(e.Val)
-		}
+	if r != nil && haveWant {
 		same := eq(*r, want)
 		if !same && e.AsSet {
 			same = eqAsSet(*r, want)
+		}
+		if !same && e.Alt != nil && p.Form == "let" {
+			same = eq(*r, *e.Alt)
+			if same {
+				want = *e.Alt
+			}
 		}
 		if !same {
 			fails = append(fails, failure{"wrong-result", fmt.Sprintf("result %s, the reference model says %s", show(*r), show(want))})
@@ -449,8 +509,8 @@ func judge(p *payload, in inst, e expect, adv ast.Type, ob observed) []failure {
 	if e.HasAfter && !eq(*recvAfter, e.After) {
 		fails = append(fails, failure{"wrong-receiver-state", fmt.Sprintf("receiver afterwards %s, the reference model says %s", show(*recvAfter), show(e.After))})
 	}
-	if p.Print && r != nil {
-		if d, ok := disp(e.Val); ok {
+	if p.Print && r != nil && haveWant {
+		if d, ok := disp(want); ok {
 			if ob.output != d+"\n" {
 				fails = append(fails, failure{"println-mismatch", fmt.Sprintf("println(r) wrote %q, expected %q", util.Clip(ob.output, 200), d+"\n")})
 			}
